@@ -6,5 +6,8 @@ CONSTANTS
  MaxHist = 2
  LeafCap = 2
  Variant = "code"
+ Extra <- MC_Extra
+ MaxAdds = 1
+ MaxRules = 3
 INVARIANTS FiredExactly NeverSkippedIfFires Terminates PreCheckOverApproximates
 CHECK_DEADLOCK FALSE
